@@ -70,6 +70,11 @@ class Contract:
         # one is reported as an error (the function is then undecided): guards against a change after which the function
         # can no longer return normally and every exit obligation holds vacuously (guide rule 6, made automatic)
         self.expect_outcomes: list[str] = kw.pop("expect_outcomes", [])
+        # allocates=True (trusted stubs of external constructors): the returned object is newly created (calls.apply_contract)
+        self.allocates: bool = kw.pop("allocates", False)
+        self.stub_defaults: dict[str, str] = kw.pop("stub_defaults", {})  # trusted stubs: defaults of omitted parameters
+        # comps: {ordinal of a map comprehension [e for x in L]: [element invariant clauses over x and `_y`]} (interp._listcomp_map)
+        self.comps: dict[int, list[str]] = kw.pop("comps", {})
         self.specialize: dict[str, list] = kw.pop("specialize", {})  # param -> concrete values (case split, completeness proved)  # labelled assumptions (listed in evidence)
         if kw:
             raise TypeError("unknown contract keys %s for %s" % (list(kw), key))
